@@ -442,39 +442,47 @@ def _tier():
     return os.environ.get('VERIF_TIER', 'quick')
 
 
+BIG_FILES = ['aslanidi_model_2009.cellml', 'beeler_reuter_model_1977.cellml',
+             'hodgkin_huxley_squid_axon_model_1952_modified.cellml', 'test_simple_odes.cellml']
+
+
 def corpus():
-    """every bundled document: the ones that load under all seeds + permutations, the refused ones under two seeds"""
+    """every bundled document. The four big models are a case each; the small ones share their interpreters (one case,
+    every process loads them all); all under every seed + permutations. Documents the loader refuses: two seeds."""
     import random
-    tier = _tier()
-    ns = n_seeds(tier)
+    ns = n_seeds(_tier())
     rng = random.Random('C15-corpus|%s' % os.environ.get('VERIF_SEED', '0'))
+    files = sorted(f for f in os.listdir(BUNDLED) if f.endswith('.cellml'))
+    groups = [[f] for f in BIG_FILES if f in files] + [[f for f in files if f not in BIG_FILES]]
     out = []
-    for f in sorted(os.listdir(BUNDLED)):
-        if f.endswith('.cellml'):
-            seeds = _seeds(rng, ns)
-            out.append({'kind': 'file', 'file': f, 'seeds': seeds, 'perms': list(PERM_KINDS),
-                        'perm_seed': rng.randrange(10 ** 9), 'perm_seeds': [seeds[-1]]})
+    for g in groups:
+        seeds = _seeds(rng, ns)
+        out.append({'kind': 'file', 'files': g, 'seeds': seeds, 'perms': list(PERM_KINDS),
+                    'perm_seed': rng.randrange(10 ** 9), 'perm_seeds': [seeds[-1]]})
     return out
 
 
 # ---------------------------------------------------------------------------------------------- implementation
 def _texts(case):
-    """base text + permuted texts of a case"""
+    """{document label: {'base': text, kind: permuted text, ...}}"""
     import random
-    if case.get('file'):
-        base = open(os.path.join(BUNDLED, case['file']), encoding='utf-8').read()
+    if case.get('doc') is not None:
+        bases = {'doc': D.to_xml(case['doc'])}
     else:
-        base = D.to_xml(case['doc'])
-    out = {'base': base}
-    for kind in case.get('perms', []):
-        prng = random.Random('%s|%s' % (case.get('perm_seed', 0), kind))
-        try:
-            if case.get('file'):
-                out[kind] = permute_xml(base, kind, prng)
-            else:
-                out[kind] = D.to_xml(permute_json(case['doc'], kind, prng))
-        except Exception:      # text that lxml cannot parse: nothing to permute (the loader refuses it anyway)
-            pass
+        bases = {f: open(os.path.join(BUNDLED, f), encoding='utf-8').read()
+                 for f in (case.get('files') or [case['file']])}
+    out = {}
+    for label, base in bases.items():
+        out[label] = {'base': base}
+        for kind in case.get('perms', []):
+            prng = random.Random('%s|%s|%s' % (case.get('perm_seed', 0), kind, label if label != 'doc' else ''))
+            try:
+                if case.get('doc') is not None:
+                    out[label][kind] = D.to_xml(permute_json(case['doc'], kind, random.Random('%s|%s' % (case.get('perm_seed', 0), kind))))
+                else:
+                    out[label][kind] = permute_xml(base, kind, prng)
+            except Exception:      # text that lxml cannot parse: nothing to permute (the loader refuses it anyway)
+                pass
     return out
 
 
@@ -483,48 +491,60 @@ def _digest(x):
 
 
 def impl(case):
+    from concurrent.futures import ThreadPoolExecutor
     texts = _texts(case)
+    labels = list(texts)
     tmp = tempfile.mkdtemp(prefix='c15_')
-    runs = []
+    runs = []            # {'doc', 'variant', 'seed', 'dump'}
     try:
         paths = {}
-        for k, t in texts.items():
-            paths[k] = os.path.join(tmp, k + '.cellml')
-            with open(paths[k], 'w', encoding='utf-8') as f:
-                f.write(t)
+        for n, label in enumerate(labels):
+            for k, t in texts[label].items():
+                paths[label, k] = os.path.join(tmp, '%d_%s.cellml' % (n, k))
+                with open(paths[label, k], 'w', encoding='utf-8') as f:
+                    f.write(t)
         seeds = list(case['seeds'])
-        first = run_dump([paths['base']], seeds[0])[0]
-        runs.append({'variant': 'base', 'seed': seeds[0], 'dump': first})
-        if first['outcome'] != 'ok':
-            seeds = seeds[:2]                 # a refused document: only the outcome class can vary
-        perm_seeds = [s for s in case.get('perm_seeds', []) if s in seeds] if first['outcome'] == 'ok' else []
-        variants = [k for k in texts if k != 'base']
-        # one fresh interpreter per (seed, chunk of texts); a few at a time (the big bundled models take seconds each)
-        tasks = [(s, ['base']) for s in seeds[1:]]
-        for s in perm_seeds:
-            tasks += [(s, variants[i:i + 3]) for i in range(0, len(variants), 3)]
-        from concurrent.futures import ThreadPoolExecutor
+        first = run_dump([paths[l, 'base'] for l in labels], seeds[0])
+        ok = [l for l, d in zip(labels, first) if d['outcome'] == 'ok']
+        bad = [l for l in labels if l not in ok]
+        for l, d in zip(labels, first):
+            runs.append({'doc': l, 'variant': 'base', 'seed': seeds[0], 'dump': d})
+        # one fresh interpreter per (seed, chunk of texts), a few at a time. A refused document: second seed only
+        # (only the outcome class can vary).
+        tasks = [(s, [(l, 'base') for l in ok]) for s in seeds[1:] if ok]
+        if bad and len(seeds) > 1:
+            tasks.append((seeds[1], [(l, 'base') for l in bad]))
+        for s in [s for s in case.get('perm_seeds', []) if s in seeds]:
+            todo = [(l, k) for l in ok for k in texts[l] if k != 'base']
+            size = 3 if len(ok) == 1 else 24
+            tasks += [(s, todo[i:i + size]) for i in range(0, len(todo), size)]
         with ThreadPoolExecutor(max_workers=THREADS) as ex:
-            results = list(ex.map(lambda t: run_dump([paths[k] for k in t[1]], t[0]), tasks))
-        for (s, ks), ds in zip(tasks, results):
-            for k, d in zip(ks, ds):
-                runs.append({'variant': k, 'seed': s, 'dump': d})
+            results = list(ex.map(lambda t: run_dump([paths[x] for x in t[1]], t[0]), tasks))
+        for (s, xs), ds in zip(tasks, results):
+            for (l, k), d in zip(xs, ds):
+                runs.append({'doc': l, 'variant': k, 'seed': s, 'dump': d})
     finally:
         shutil.rmtree(tmp, ignore_errors=True)
-    fails = property_failures(runs)
-    base = runs[0]['dump']
-    small = len(json.dumps(base)) < 60000
-    obs = {'outcome': base['outcome'], 'msg': base.get('msg'), 'query_err': base.get('query_err'),
-           'n_runs': len(runs), 'n_seeds': len({r['seed'] for r in runs}),
-           'n_equations': len(base.get('equations', [])), 'n_constants': sum(base.get('eq_const', [])),
-           'n_conversions': sum(base.get('eq_conv', [])),
-           'digests': sorted({'%s:%s' % (r['variant'], _digest({q: r['dump'].get(q) for q in QUERIES})) for r in runs}),
-           'perm_changed_text': sorted(k for k in texts if k != 'base' and texts[k] != texts['base']),
-           'failures': fails[:8],
-           'base': base if small else {q: base.get(q) for q in ('outcome', 'variables', 'states', 'derived')}}
-    if case.get('doc') is not None and first['outcome'] == 'ok':
-        obs['perm_dumps'] = {r['variant']: r['dump'] for r in runs if r['variant'] != 'base' and r['seed'] == perm_seeds[0]} \
-            if perm_seeds else {}
+    fails = []
+    for l in labels:
+        for f in property_failures([r for r in runs if r['doc'] == l]):
+            fails.append({'key': f['key'], 'detail': ('' if l == 'doc' else l + ': ') + f['detail']})
+    bases = {l: d for l, d in zip(labels, first)}
+    obs = {'outcome': 'ok' if ok else first[0]['outcome'], 'msg': first[0].get('msg'),
+           'outcomes': {l: bases[l]['outcome'] for l in labels},
+           'n_runs': len(runs), 'n_seeds': len({r['seed'] for r in runs}), 'n_docs_ok': len(ok),
+           'n_equations': sum(len(bases[l].get('equations', [])) for l in ok),
+           'n_constants': max([sum(bases[l].get('eq_const', [])) for l in ok] or [0]),
+           'n_conversions': sum(sum(bases[l].get('eq_conv', [])) for l in ok),
+           'query_errs': {l: bases[l]['query_err'] for l in ok if bases[l].get('query_err')},
+           'digests': sorted({'%s:%s:%s' % (r['doc'], r['variant'], _digest({q: r['dump'].get(q) for q in QUERIES}))
+                              for r in runs})[:40],
+           'failures': fails[:8]}
+    if case.get('doc') is not None:
+        obs['base'] = first[0]
+        ps = [s for s in case.get('perm_seeds', []) if s in seeds]
+        obs['perm_dumps'] = {r['variant']: r['dump'] for r in runs if r['variant'] != 'base' and r['seed'] == ps[0]} \
+            if ps and ok else {}
     return obs
 
 
@@ -544,6 +564,8 @@ def nontrivial(case, obs):
 def tag(case, obs):
     if obs['outcome'] != 'ok':
         return '%s refused %s' % (case.get('kind'), obs['outcome'])
+    if case.get('files') and len(case['files']) > 1:
+        return 'files: %d load, %d refused' % (obs['n_docs_ok'], len(case['files']) - obs['n_docs_ok'])
     nc = obs.get('n_constants', 0)
     return '%s ok consts=%s convs=%s' % (case.get('kind'), '0' if nc == 0 else '1' if nc == 1 else '2-4' if nc < 5 else '5+',
                                           'yes' if obs.get('n_conversions') else 'no')
